@@ -56,6 +56,12 @@ pub fn run_check(ctx: &Ctx) -> Outcome {
         }
     }
     out.coverage.insert("regression_replays_passed".into(), json!(replayed - out.violations.len() as u64));
+    // the library has two feature configurations (std / no_std with hashbrown + libm: other
+    // hash map, other sketch, libm floor/ceil/ln): every check except C19 also runs in the
+    // no_std build of the harness, C05 and C11 at full scale, the others at a third
+    if !matches!(ctx.id.as_str(), "C05" | "C11" | "C19") && ctx.scale >= 1.0 {
+        run_nostd_child_scaled(ctx, &mut out, 0.34);
+    }
     match ctx.id.as_str() {
         "C01" => {
             check_e1(ctx, Prop::C01, &mut out, 12000, 250000);
@@ -204,6 +210,10 @@ fn check_tinylfu_c11(ctx: &Ctx, out: &mut Outcome) {
 /// C05 / C11 quantify over both feature configurations: run the no_std build of this harness
 /// as a child (same check, same seed, no evidence file) and fold its report into ours.
 pub fn run_nostd_child(ctx: &Ctx, out: &mut Outcome) {
+    run_nostd_child_scaled(ctx, out, ctx.scale)
+}
+
+pub fn run_nostd_child_scaled(ctx: &Ctx, out: &mut Outcome, scale: f64) {
     if cfg!(feature = "nostd") {
         return;
     }
@@ -216,7 +226,7 @@ pub fn run_nostd_child(ctx: &Ctx, out: &mut Outcome) {
     };
     let tier = if ctx.tier == Tier::Quick { "quick" } else { "thorough" };
     let r = std::process::Command::new(&bin)
-        .args(["check", &ctx.id, "--tier", tier, "--seed", &ctx.seed.to_string(), "--verif-dir", &ctx.verif_dir, "--no-evidence", "--emit-json", "--scale", &ctx.scale.to_string()])
+        .args(["check", &ctx.id, "--tier", tier, "--seed", &ctx.seed.to_string(), "--verif-dir", &ctx.verif_dir, "--no-evidence", "--emit-json", "--scale", &scale.to_string()])
         .output();
     match r {
         Err(e) => out.inconclusive = Some(format!("cannot run {}: {}", bin, e)),
